@@ -47,15 +47,34 @@ type seqCase struct {
 	Limit      int       `json:"limit"`
 	Workers    int       `json:"workers"` // lightweight helpers
 	Procs      int       `json:"procs"`
-	Shuffle    uint64    `json:"shuffle"` // fakedb delivery order of unordered queries (0 = ascending id)
+	Shuffle    uint64    `json:"shuffle"`         // fakedb delivery order of unordered queries (0 = ascending id)
 	Steps      []patStep `json:"steps,omitempty"` // helper "pattern": the chained expansions of traversal.NewPattern()
+	// IDs: the stored id of node i+1 (absent = i+1). Ids are 64-bit values; two nodes may agree in their low 32 bits.
+	IDs []uint64 `json:"ids,omitempty"`
+}
+
+// nodeID / nodeOf translate between the case's node numbers (1..n) and the stored ids.
+func (c seqCase) nodeID(n int) uint64 {
+	if n >= 1 && n <= len(c.IDs) {
+		return c.IDs[n-1]
+	}
+	return uint64(n)
+}
+
+func (c seqCase) nodeOf(id graph.ID) int {
+	for n := 1; n <= len(c.NodeKinds); n++ {
+		if c.nodeID(n) == uint64(id) {
+			return n
+		}
+	}
+	return -1
 }
 
 // patStep is one expansion of a traversal pattern.
 type patStep struct {
 	Inbound bool `json:"inbound"`
 	Min     int  `json:"min"`
-	Max     int  `json:"max"` // 0 = unbounded
+	Max     int  `json:"max"`  // 0 = unbounded
 	Kind    int  `json:"kind"` // 0 none, 1 R, 2 S
 }
 
@@ -176,6 +195,19 @@ func genSeq(t *rapid.T) seqCase {
 			c.MaxDepth = 3 // the helper has no cycle check of its own: unbounded plans are only defined on DAGs
 		}
 	}
+	if rapid.IntRange(0, 3).Draw(t, "wideIDs") == 0 {
+		// some nodes live in the upper half of the id space, under the low 32 bits of another node
+		c.IDs = make([]uint64, n)
+		for i := range c.IDs {
+			c.IDs[i] = uint64(i + 1)
+		}
+		for i := range c.IDs {
+			if rapid.IntRange(0, 2).Draw(t, "high") == 0 {
+				twin := rapid.IntRange(1, n).Draw(t, "twin")
+				c.IDs[i] = uint64(twin) + uint64(rapid.SampledFrom([]int{1, 1, 2, 1 << 20}).Draw(t, "highPart"))<<32 + uint64(i)<<40
+			}
+		}
+	}
 	if c.Helper != "lightweight" && c.Helper != "intermediary" && rapid.Bool().Draw(t, "useSkipLimit") {
 		c.Skip = rapid.IntRange(0, 4).Draw(t, "skip")
 		c.Limit = rapid.IntRange(0, 4).Draw(t, "limit")
@@ -290,10 +322,10 @@ func (r *seqRef) reach() (reached map[int]bool, inDegree map[int]int, sinks map[
 func (c seqCase) spec() fakedb.Spec {
 	g := fakedb.GraphSpec{Name: "g"}
 	for i, k := range c.NodeKinds {
-		g.Nodes = append(g.Nodes, fakedb.NodeSpec{ID: uint64(i + 1), Kinds: []string{kindNames[k]}})
+		g.Nodes = append(g.Nodes, fakedb.NodeSpec{ID: c.nodeID(i + 1), Kinds: []string{kindNames[k]}})
 	}
 	for i, e := range c.Edges {
-		g.Edges = append(g.Edges, fakedb.EdgeSpec{ID: uint64(i + 1), Start: uint64(e.S), End: uint64(e.E), Kind: relNames[e.K]})
+		g.Edges = append(g.Edges, fakedb.EdgeSpec{ID: uint64(i + 1), Start: c.nodeID(e.S), End: c.nodeID(e.E), Kind: relNames[e.K]})
 	}
 	return fakedb.Spec{Graphs: []fakedb.GraphSpec{g}}
 }
@@ -319,10 +351,12 @@ func (c seqCase) direction() graph.Direction {
 }
 
 func (c seqCase) segmentOK(seg *graph.PathSegment) bool {
-	return int(seg.Node.ID) != c.Ban && (c.MaxDepth == 0 || seg.Depth() <= c.MaxDepth)
+	return c.nodeOf(seg.Node.ID) != c.Ban && (c.MaxDepth == 0 || seg.Depth() <= c.MaxDepth)
 }
 
-func (c seqCase) nodeCounts(n *graph.Node) bool { return !c.OnlyA || n.Kinds.ContainsOneOf(graph.StringKind("A")) }
+func (c seqCase) nodeCounts(n *graph.Node) bool {
+	return !c.OnlyA || n.Kinds.ContainsOneOf(graph.StringKind("A"))
+}
 
 func graphPathKey(p graph.Path) string {
 	edges := make([]int, len(p.Edges))
@@ -367,6 +401,16 @@ func seqOracle(c seqCase) (evid.Info, error) {
 	n := len(c.NodeKinds)
 	if !okHelper || n == 0 || n > 64 || c.Root < 1 || c.Root > n || c.Skip < 0 || c.Limit < 0 || c.MaxDepth < 0 || c.KindFilter < 0 || c.KindFilter > 3 {
 		return evid.Info{Skip: "outside domain"}, nil
+	}
+	if len(c.IDs) != 0 && len(c.IDs) != n {
+		return evid.Info{Skip: "outside domain"}, nil
+	}
+	ids := map[uint64]bool{}
+	for i := 1; i <= n; i++ {
+		if ids[c.nodeID(i)] {
+			return evid.Info{Skip: "duplicate node id"}, nil
+		}
+		ids[c.nodeID(i)] = true
 	}
 	dup := map[seqEdge]bool{}
 	for _, e := range c.Edges {
@@ -463,7 +507,7 @@ func seqOracle(c seqCase) (evid.Info, error) {
 		}
 		defer func() { unsupported = db.Unsupported() }()
 		plan := ops.TraversalPlan{
-			Root:      graph.NewNode(graph.ID(c.Root), nil, graph.StringKind(kindNames[c.NodeKinds[c.Root-1]])),
+			Root:      graph.NewNode(graph.ID(c.nodeID(c.Root)), nil, graph.StringKind(kindNames[c.NodeKinds[c.Root-1]])),
 			Direction: c.direction(),
 			Skip:      c.Skip,
 			Limit:     c.Limit,
@@ -496,7 +540,7 @@ func seqOracle(c seqCase) (evid.Info, error) {
 			runErr = db.ReadTransaction(ctx, func(tx graph.Transaction) error {
 				ns, err := ops.AcyclicTraverseNodes(tx, plan, c.nodeCounts)
 				for id := range ns {
-					gotNodes[int(id)] = true
+					gotNodes[c.nodeOf(id)] = true
 				}
 				return err
 			})
@@ -504,7 +548,7 @@ func seqOracle(c seqCase) (evid.Info, error) {
 			runErr = db.ReadTransaction(ctx, func(tx graph.Transaction) error {
 				ns, err := ops.AcyclicTraverseTerminals(tx, plan)
 				for id := range ns {
-					gotNodes[int(id)] = true
+					gotNodes[c.nodeOf(id)] = true
 				}
 				return err
 			})
